@@ -199,18 +199,30 @@ class C11(PropCheck):
     case_timeout = 150
     build_targets = ('Sched/BoCase.vo',)
     rule = ('(a) acquire(n, t) of LCBSC / MaxVar / RandMaxVar(metropolis) / ExpIntVar / UniformAcquisition on fitted GPyRegression '
-            'surrogates over random 1-2-D boxes, noise None / scalar / per-parameter dict with zeros, priors wider than the box, with the '
-            'inner optimiser results and the truncated-normal calls spied; direct calls of bo.utils.minimize with bounded and unbounded '
-            'inner methods; (b) real BayesianOptimization / BOLFI runs under the scripted client (initial evidence as count / precomputed '
-            'dict / zero, batch_size 1-3, batches_per_acquisition 1-3, update_interval 1-100, async on/off, max_parallel 1-4, random '
-            'is_ready answers, lazy/eager/shuffled execution), every simulator call, acquire call, prepare_new_batch and surrogate update '
-            'logged; (c) values of the translated LCBSC formulas; non-trivial = acquisition with an optimiser end point or noise draw that '
-            'needed the clip/truncation or n > 1, or a BO run with >= 1 acquisition and >= 1 "not ready" answer; distinct by case')
+            'surrogates over random 1-3-D boxes (free or pairwise-disjoint intervals) whose bounds dict is written in the order of '
+            'parameter_names, reversed or shuffled (parameter names drawn from a pool, in any order), noise None / scalar / per-parameter '
+            'dict (own key order) with zeros, priors wider than the box, with the inner optimiser results and the truncated-normal calls '
+            'spied; the box of the model and of the predicate is box_of(parameter_names, dict); direct calls of bo.utils.minimize with '
+            'bounded and unbounded inner methods; (b) real BayesianOptimization / BOLFI runs under the scripted client (parameter nodes '
+            'created in any order, bounds dict / acq_noise_var dict / precomputed-evidence dict in permuted key orders, surrogate given or '
+            'built by the method, initial evidence as count / precomputed dict / zero, batch_size 1-3, batches_per_acquisition 1-3, '
+            'update_interval 1-100, async on/off, max_parallel 1-4, random is_ready answers, lazy/eager/shuffled execution), every '
+            'simulator call, acquire call, prepare_new_batch and surrogate update logged, every LCBSC evaluate/evaluate_gradient call of '
+            'the optimiser compared with a freshly constructed LCBSC; (c) values of the translated LCBSC formulas; (d) histories on ONE '
+            'LCBSC (+ ONE MaxVar) object over ONE surrogate: queries (value / gradient / both, either order) at 1-3 points (box corners '
+            'included) separated by surrogate updates (1-3 rows, anywhere or next to the query point, with/without hyper-parameter '
+            'optimisation), optimize() and acquire(n, t) calls, every query compared with the translated formulas on the surrogate\'s '
+            'current outputs, with a fresh object and with central differences; non-trivial = acquisition with an optimiser end point or '
+            'noise draw that needed the clip/truncation or n > 1, a BO run with >= 1 acquisition and >= 1 "not ready" answer, a history '
+            'with a query repeating the previous query\'s point after a surrogate change; distinct by case')
     trusted = ('translator harness/translate_c11.py (Python ast -> Gallina, fail-closed) and the reading "numpy element-wise op on one row/coordinate = scalar op on reals"',
                'oracles, modelled not verified: scipy.optimize.minimize (arbitrary end points), scipy.stats.truncnorm/uniform (range hypothesis stated in Proofs/C11_Acq.v), numpy sqrt, GPy (surrogate mean/variance/gradients), the MCMC kernels (C09)',
                'harness shim paramz.Param.__float__ for 1-element parameters (numpy 2), as in harness/c10.py; no repo change',
                'the scripted client stands for any ClientBase that answers is_ready arbitrarily and computes submitted nets faithfully',
-               'finite-difference clauses (LCBSC, MaxVar gradients): central differences h=1e-5, tolerance 2e-4 relative + 1e-6 absolute')
+               'finite-difference clauses (LCBSC, MaxVar gradients): central differences h=1e-5, tolerance 2e-4 relative + 1e-6 absolute '
+               '(histories: in Coq, BoCase.fd_close, relative to |a|+|b|; observed worst error/tolerance ratio 0.03 over 12000 comparisons)',
+               'histories: the surrogate\'s "current" mean/variance/gradients are read directly from GPyRegression.predict / predictive_gradients '
+               '(GPy itself is an oracle); "fresh object" = a new LCBSC / MaxVar (same eps) constructed at the moment of the query')
 
     def gen_translated(self):
         translate_c11.generate(REPO, COQ)
@@ -688,16 +700,17 @@ class C11(PropCheck):
                 fresh = A.LCBSC(gp, exploration_rate=er, seed=1)
                 fval = f1(fresh.evaluate(x.copy(), t))
                 fgrad = vec(fresh.evaluate_gradient(x.copy(), t))
-                fd = []
-                for j in range(dim):
-                    e = np.zeros((1, dim))
-                    e[0, j] = h
-                    fd.append((f1(A.LCBSC(gp, exploration_rate=er, seed=1).evaluate(x + e, t))
-                               - f1(A.LCBSC(gp, exploration_rate=er, seed=1).evaluate(x - e, t))) / (2 * h))
+                fd, fd2 = [], []
+                for hh, dst in ((h, fd), (h / 10, fd2)):
+                    for j in range(dim):
+                        e = np.zeros((1, dim))
+                        e[0, j] = hh
+                        dst.append((f1(A.LCBSC(gp, exploration_rate=er, seed=1).evaluate(x + e, t))
+                                    - f1(A.LCBSC(gp, exploration_rate=er, seed=1).evaluate(x - e, t))) / (2 * hh))
                 mfresh = A.MaxVar(gp, prior, quantile_eps=0.3, seed=1)
                 mfresh.eps = mv.eps
                 steps.append(dict(p=op['p'], t=t, beta=beta, mean=mean, var=var, gm=vec(gm), gv=vec(gv), val=val, grad=grad,
-                                  fval=fval, fgrad=fgrad, fd=fd, n_evidence=int(gp.n_evidence),
+                                  fval=fval, fgrad=fgrad, fd=fd, fd2=fd2, n_evidence=int(gp.n_evidence),
                                   sqrt=[[beta * var, float(np.sqrt(beta * var))], [beta / var, float(np.sqrt(beta / var))]],
                                   mval=mval, mgrad=mgrad, mfval=f1(mfresh.evaluate(x.copy())), mfgrad=vec(mfresh.evaluate_gradient(x.copy()))))
         return dict(steps=steps, acqs=acqs, mbounds=[[float(b[0]), float(b[1])] for b in gp.bounds])
@@ -901,10 +914,10 @@ class C11(PropCheck):
             steps = []
             for st in out['steps']:
                 steps.append('{| h_beta := %s; h_mean := %s; h_var := %s; h_gmean := %s; h_gvar := %s; h_sqrt := %s; h_val := %s; '
-                             'h_grad := %s; h_fval := %s; h_fgrad := %s; h_fd := %s |}'
+                             'h_grad := %s; h_fval := %s; h_fgrad := %s; h_fd := %s; h_fd2 := %s |}'
                              % (cq(st['beta']), cq(st['mean']), cq(st['var']), crow(st['gm']), crow(st['gv']),
                                 clist(['(%s, %s)' % (cq(a), cq(b)) for a, b in st['sqrt']]),
-                                copt(st['val'], cq), copt(st['grad'], crow), cq(st['fval']), crow(st['fgrad']), crow(st['fd'])))
+                                copt(st['val'], cq), copt(st['grad'], crow), cq(st['fval']), crow(st['fgrad']), crow(st['fd']), crow(st['fd2'])))
             return ('(CHist {| hs_names := %s; hs_dict := %s; hs_mbounds := %s; hs_steps := %s; hs_acq := %s |})'
                     % (cnames(case['names']), cdict(case), cbox(out['mbounds']), clist(steps),
                        clist(['(%s, %s)' % (cnat(a['n']), crows(a['out'])) for a in out['acqs']])))
